@@ -92,8 +92,10 @@ func (f *fileDecorator) fragment(node ast.Node) {
 						continue
 					}
 
+					// The literal spans one more line per line break it contains. (Its length is no
+					// guide: the scanner strips carriage returns from raw strings.)
 					startLine := f.Fset.PositionFor(frag.Pos, false).Line
-					endLine := f.Fset.PositionFor(frag.Pos+token.Pos(len(frag.String)), false).Line
+					endLine := startLine + strings.Count(frag.String, "\n")
 
 					// multi line string
 					if endLine > startLine {
